@@ -85,7 +85,7 @@ def render_line(l, stmts, seed, first_table):
     if st == "none":
         return ind + code
     if st == "dash":
-        return ind + "-- " + t
+        return ind + ("--", "-- ")[(seed + cm["cid"]) % 2] + t
     if st == "hash":
         if (seed + cm["cid"]) % 3 == 0:
             return ind + "#" + t.split()[0]          # a single word glued to the marker (#TODO)
@@ -101,7 +101,8 @@ def render_line(l, stmts, seed, first_table):
     if st == "close":
         return ind + t + " end */"
     if st == "tdash":
-        return code + " -- " + t
+        # the marker glued to the comment text (`--note`) / a single blank / several blanks before and after it
+        return code + (" --", " -- ", "   --  ")[(seed + cm["cid"]) % 3] + t
     if st == "tblk1":
         return code + " /* " + t + " */"
     if st == "topen":
